@@ -281,6 +281,18 @@ def c10_4(ctx):
         ctx.ok("der-no-length-byte", sample={"raises_for_len": sym.must_set(frl, U, E).fmt()})      # as an interval: the empty field is always refused
     else:
         refuses(w_, lambda t: t in (sp, "len(%s)" % sp), "der-no-length-byte", ctx.where(rl), "read_length does not refuse an empty length field with UnexpectedDER")
+    # strict mode refuses bytes after the SEQUENCE and bytes after the second INTEGER inside it; the two remainders are named by
+    # what they are (second component of remove_sequence(..) / of the second remove_integer(..)), not by a local's name
+    sd = ctx.func(DER, "sigdecode_der")
+    ws = sym.walk(ctx, sd, int_names=ints)
+    prm = sd.params()
+    if len(prm) >= 2:
+        strict = ("not", ("op", "truthy(%s)" % prm[1]))
+        outer = lambda t: "remove_sequence(" in t and "remove_integer(" not in t and t.rstrip(")").endswith("[1]")
+        inner = lambda t: t.count("remove_integer(") >= 2 and t.rstrip(")").endswith("[1]") and "[1], " in t
+        for nm, tp, what in (("der-trailing-after-sequence", outer, "sigdecode_der(strict): bytes after the end of the SEQUENCE (sig + b'\\x00')"),
+                             ("der-trailing-inside-sequence", inner, "sigdecode_der(strict): bytes after the second INTEGER inside the SEQUENCE")):
+            sym.must_refuse(ctx, ws, nm, ctx.where(sd), what, lambda a, tp=tp: a.startswith("truthy(") and tp(a[7:-1]), tp, assume=strict)
     # callers of the lenient / strict decoder handle exactly the documented errors
     for rel, fn, callee in (("pycoin/satoshi/checksigops.py", "checksigs", "parse_and_check_signature_blob"), (KEY, "Key.verify", "sigdecode_der")):
         c = ctx.func(rel, fn)
